@@ -2,6 +2,7 @@ package checks
 
 import (
 	"bytes"
+	gocontext "context"
 	"encoding/json"
 	"encoding/xml"
 	"fmt"
@@ -35,6 +36,9 @@ type renderCase struct {
 	JSONGo     string          `json:"json_go_value,omitempty"`                                     // json: the value is this Go value instead of json_value: nil-slice ([]string(nil)) | nil-map | nil-ptr | empty-slice | nil-in-struct. The body is what the standard encoder writes for it
 	EditCT     bool            `json:"earlier_response_edited_its_content_type_in_place,omitempty"` // an earlier request of the same kind on the same instance appended to element 0 of its own Content-Type header value (in place, through the header map)
 	FailFirst  string          `json:"earlier_render_failed,omitempty"`                             // an earlier request (same instance, or another instance of the process) rendered a value that cannot be encoded: xml-late (fails after several KiB of output) | json (fails at once). Nothing of it may reach this response
+	Query      string          `json:"raw_query,omitempty"`                                         // the request's query string: nothing in it is an argument of the render
+	CtxDone    bool            `json:"request_context_done_before_rendering,omitempty"`             // the rendering handler cancels the request's context first (a time-limit pattern that reports 504 through the renderer): the render is still sent
+	Counting   bool            `json:"value_counts_its_encodings,omitempty"`                        // json | xml: the value's marshaler reports how many times it has been asked: the body is the first encoding
 	EnvMade    string          `json:"env_when_renderer_was_created,omitempty"`                     // process environment while Renderer(...) was called ("" = untouched; serial cases only)
 	EnvServed  string          `json:"env_when_request_was_served,omitempty"`                       // process environment while the request was served: what is rendered depends on neither
 }
@@ -131,6 +135,9 @@ func genRenderCase(rng *rand.Rand) *renderCase {
 		Spread:     rng.Intn(6) == 0,
 		EditCT:     rng.Intn(8) == 0,
 		FailFirst:  []string{"", "", "", "", "", "", "", "", "xml-late", "json"}[rng.Intn(10)],
+		Query:      []string{"", "", "", "pretty", "pretty=true&page=2", "page=2&pretty=false", "indent=4", "format=xml", "callback=cb", "_method=GET", "charset=gbk"}[rng.Intn(11)],
+		CtxDone:    rng.Intn(10) == 0,
+		Counting:   rng.Intn(12) == 0,
 	}
 	switch c.Kind {
 	case "json":
@@ -198,6 +205,16 @@ func renderVerdict(c *renderCase, o renderObs) string {
 	wantCT := map[string]string{"json": "application/json; charset=" + cs, "xml": "text/xml; charset=" + cs, "binary": "application/octet-stream", "text": "text/plain; charset=" + cs}[c.Kind]
 	if o.ctype != wantCT {
 		return fmt.Sprintf("Content-Type %q, want %q", o.ctype, wantCT)
+	}
+	if c.Counting && (c.Kind == "json" || c.Kind == "xml") {
+		want := `{"serial":1}`
+		if c.Kind == "xml" {
+			want = "<serial>1</serial>"
+		}
+		if strings.Join(strings.Fields(string(o.body)), "") != want { // indentation aside
+			return fmt.Sprintf("the value's marshaler counts its calls; the body %q is not its first encoding %q", clip(string(o.body)), want)
+		}
+		return ""
 	}
 	switch c.Kind {
 	case "binary", "text":
@@ -278,6 +295,20 @@ type c17Unencodable struct {
 	Rows []xmlItem      `xml:"row" json:"rows"`
 	Bad  map[string]int `xml:"bad" json:"-"`
 	Ch   chan int       `xml:"-" json:"ch"`
+}
+
+// c17Serial is encoded through its own marshaler methods, which count their calls: a value is encoded once.
+type c17Serial struct{ n *int }
+
+func (v c17Serial) MarshalJSON() ([]byte, error) {
+	*v.n++
+	return []byte(fmt.Sprintf(`{"serial":%d}`, *v.n)), nil
+}
+
+func (v c17Serial) MarshalXML(e *xml.Encoder, start xml.StartElement) error {
+	*v.n++
+	start.Name.Local = "serial"
+	return e.EncodeElement(*v.n, start)
 }
 
 type c17Holder struct {
@@ -373,6 +404,20 @@ func judgeRender(w *core.W, c *renderCase) {
 			<-otherDone
 		}
 		o.ran = true
+		if c.CtxDone {
+			cctx, cancel := gocontext.WithCancel(req.Context())
+			ctx.Request().Request = req.WithContext(cctx)
+			cancel()
+		}
+		if c.Counting && (c.Kind == "json" || c.Kind == "xml") {
+			n := 0
+			if c.Kind == "json" {
+				r.JSON(c.Status, c17Serial{&n})
+			} else {
+				r.XML(c.Status, c17Serial{&n})
+			}
+			return
+		}
 		switch c.Kind {
 		case "json":
 			r.JSON(c.Status, jsonIn)
@@ -472,7 +517,7 @@ func judgeRender(w *core.W, c *renderCase) {
 			f.ServeHTTP(&retSpy{h: http.Header{}}, &http.Request{Method: "POST", URL: &url.URL{Path: target}, Header: http.Header{"X-Prime": {"1"}}})
 			w.Count("earlier-response-edited-its-content-type-in-place")
 		}
-		f.ServeHTTP(spy, &http.Request{Method: "POST", URL: &url.URL{Path: target}, Header: http.Header{"X-Who": {"a"}}})
+		f.ServeHTTP(spy, &http.Request{Method: "POST", URL: &url.URL{Path: target, RawQuery: c.Query}, Header: http.Header{"X-Who": {"a"}}})
 	}()
 	o.status, o.body, o.ctype = spy.status, spy.body, strings.Join(spy.h.Values("Content-Type"), " | ")
 	if c.Overlap && o.pan == nil {
